@@ -260,6 +260,24 @@ class Inliner:
             return [s]
         if isinstance(s, ast.ClassDef):
             return [s]
+        if isinstance(s, ast.Assign) and len(s.targets) == 1 and isinstance(s.value, ast.BinOp) and \
+                isinstance(s.value.op, (ast.Add, ast.Sub)) and isinstance(s.targets[0], (ast.Name, ast.Attribute, ast.Subscript)):
+            # `x = x + e` is `x += e` for numbers and strings: one spelling for accumulation.  Not for displays
+            # on the right: `x = x + [a]` builds a new list where `x += [a]` extends the old one.
+            tgt = ast.unparse(s.targets[0])
+            l_, r_ = s.value.left, s.value.right
+            other = None
+            if ast.unparse(l_) == tgt:
+                other = r_          # (not `x = e + x`: for strings that is a prefix, `x += e` would be a suffix)
+            if other is not None and not isinstance(other, (ast.List, ast.Tuple, ast.Set, ast.Dict, ast.ListComp, ast.SetComp,
+                                                            ast.DictComp, ast.JoinedStr)) and \
+                    not (isinstance(other, ast.Constant) and isinstance(other.value, (str, bytes))) and \
+                    not any(isinstance(x, (ast.List, ast.ListComp)) for x in ast.walk(other)):
+                aug = ast.AugAssign(target=copy.deepcopy(s.targets[0]), op=s.value.op, value=other)
+                aug.target.ctx = ast.Store()
+                ast.copy_location(aug, s)
+                ast.fix_missing_locations(aug)
+                s = aug
         pre = []
         self._note_table(s, ctx)
         self._note_lookup(s, ctx)
